@@ -207,9 +207,15 @@ func NewSP(c Config) *saml.ServiceProvider {
 // Retrust reconfigures a long-lived ServiceProvider value to another trust configuration,
 // the way an application refreshes IdP metadata (key rotation, a retired key) or changes its
 // pinning: the public trust fields are replaced, the ServiceProvider value stays the same.
-func Retrust(sp *saml.ServiceProvider, trust string) {
+// With inPlace the EntityDescriptor the SP already points to is overwritten (`*sp.IDPMetadata = *fresh`, what a
+// metadata refresher that keeps the pointer does); otherwise the pointer is replaced.
+func Retrust(sp *saml.ServiceProvider, trust string, inPlace bool) {
 	n := NewSP(Config{Trust: trust})
-	sp.IDPMetadata = n.IDPMetadata
+	if inPlace && sp.IDPMetadata != nil {
+		*sp.IDPMetadata = *n.IDPMetadata
+	} else {
+		sp.IDPMetadata = n.IDPMetadata
+	}
 	sp.IDPCertificate = n.IDPCertificate
 	sp.IDPCertificateFingerprint = n.IDPCertificateFingerprint
 	sp.IDPCertificateFingerprintAlgorithm = n.IDPCertificateFingerprintAlgorithm
@@ -243,6 +249,14 @@ func Noise(sp *saml.ServiceProvider, n uint64) {
 	}
 	if n&128 != 0 {
 		sp.Intermediates = []*x509.Certificate{fix.Get("idp2").Cert, fix.Get("attacker").Cert}
+	}
+	// bits 8 and 9 (only drawn by checks whose oracle does not involve these rules): the application installed
+	// its own accept-everything request-ID / audience validators
+	if n&256 != 0 {
+		sp.ValidateRequestID = func(saml.Response, []string) error { return nil }
+	}
+	if n&512 != 0 {
+		sp.ValidateAudienceRestriction = func(*saml.Assertion) error { return nil }
 	}
 }
 
